@@ -8,7 +8,9 @@ package racer
 
 import (
 	"encoding/json"
+	"fmt"
 	"os"
+	"runtime"
 	"strconv"
 	"testing"
 	"time"
@@ -17,6 +19,7 @@ import (
 	_ "verifsim/props/c13"
 	c13 "verifsim/props/c13"
 	c14 "verifsim/props/c14"
+	c16 "verifsim/props/c16"
 )
 
 func budget() (int64, time.Duration) {
@@ -73,4 +76,50 @@ func TestRaceC14(t *testing.T) {
 		t.Fatalf("process-wide values modified: %s", g)
 	}
 	report(map[string]any{"workloads": n, "repeats_each": 2, "seconds": d.Seconds()})
+}
+
+// TestRaceC16 is the real-thread leg of C16: the generated pipelines (including
+// fan-out worker pools) on real goroutines, GOMAXPROCS cycling through
+// 1/2/4/8/16, judged by the same delivery oracle as the simulation. A failure
+// does not replay exactly; the replay file re-runs the failing case repeatedly.
+func TestRaceC16(t *testing.T) {
+	seed, d := budget()
+	p := harness.Lookup("C16")
+	end := time.Now().Add(d)
+	procs := []int{1, 2, 4, 8, 16}
+	defer runtime.GOMAXPROCS(runtime.GOMAXPROCS(0))
+	var fixed *harness.Case
+	if path := os.Getenv("VERIF_REAL_CASE"); path != "" {
+		b, err := os.ReadFile(path)
+		if err != nil {
+			t.Fatal(err)
+		}
+		var wrap struct {
+			Case *harness.Case `json:"case"`
+		}
+		if json.Unmarshal(b, &wrap) != nil || wrap.Case == nil {
+			t.Fatal("bad real-leg case file")
+		}
+		fixed = wrap.Case
+	}
+	n := 0
+	for i := int64(0); time.Now().Before(end); i++ {
+		c := fixed
+		if c == nil {
+			c = p.Gen((seed<<20)+i, "real")
+		}
+		runtime.GOMAXPROCS(procs[int(i)%len(procs)])
+		for rep := 0; rep < 3; rep++ {
+			if class, detail := c16.RunReal(c); class != "" {
+				if out := os.Getenv("VERIF_RACE_OUT"); out != "" {
+					b, _ := json.Marshal(map[string]any{"case": c, "class": class})
+					os.WriteFile(out+".case", b, 0o644)
+				}
+				fmt.Printf("REAL-LEG VIOLATION class=%s gomaxprocs=%d\n%s\n", class, procs[int(i)%len(procs)], detail)
+				t.FailNow()
+			}
+		}
+		n++
+	}
+	report(map[string]any{"workloads": n, "repeats_each": 3, "seconds": d.Seconds(), "gomaxprocs_cycle": procs})
 }
